@@ -33,6 +33,7 @@ from .base import (
 from numpy import (
     bool_,
     full,
+    inf,
     isinf,
     where,
     zeros,
@@ -157,7 +158,10 @@ class Parallel(Connection):
         if shorted.all():
             return complex(0, 0) * f
         elif num_open_paths == len(self._elements):
-            raise InfiniteImpedance()
+            # All paths are open, which makes this connection an open path of
+            # whatever contains it. An infinite impedance of the circuit as a
+            # whole is still rejected when the circuit's impedances are returned.
+            return full(f.shape, complex(inf, 0), dtype=ComplexImpedance)
 
         results: ComplexImpedances = zeros(f.shape, dtype=ComplexImpedance)
 
